@@ -328,7 +328,7 @@ func TestVerifC06(t *testing.T) {
 	r := ev.Begin("C06", "histories")
 	defer r.End(t)
 	r.Rule = "histories = all sequences of <=K events, event = (solicitation from :: | unicast solicitation) x gap to the previous event in {0, 100ms, 1s, 2.9s, 3s-1ns, 3s, 3.1s, 6s}, or a link-state change (tear-down and re-initialisation) or a transient failure (ENOBUFS) of the next scheduled multicast transmission, each x gap {100ms, 1s, 3.1s, 6s}, injected into the real Advertiser with min=max=4s (periodic ticks at 0,4,8,... interleave) and min=max=60s (long quiet periods; quick: histories <=2), plus all sequences of <=3 (thorough 4) events over {solicitation from ::, unicast solicitation} x gap {0.1, 1, 3.1 s} and {unicast solicitation whose answer fails with EHOSTUNREACH, ENETUNREACH, EADDRNOTAVAIL, EINVAL, ENOBUFS} in normal and unicast-only mode, plus bursts of 4, 5, 6 and 9 solicitations (unicast / from :: / alternating; 0, 0.1, 1 s apart; at start and after a solicited multicast RA), under the virtual clock in the canonical schedule; oracle on virtual WriteTo timestamps to ff02::1, per connection generation from its initial RA: consecutive >= 3s apart, every trigger (tick or :: solicitation) served within 3s, unicast answers conserved; states = histories executed, transitions = scheduler steps; non-trivial = history has >=1 event; distinct = distinct history"
-	r.Assumptions = []string{"canonical schedule per history (goroutine interleavings are C07/C08's subject)", "random delay draws at their default (0) answer, except for histories of <=2 solicitations, which run with every combination of draws {0, middle, maximum}"}
+	r.Assumptions = []string{"canonical schedule per history (goroutine interleavings are C07/C08's subject)", "random delay draws at their default (0) answer, except for histories of <=2 solicitations (4-point gap grid) and of 3 solicitations (gaps 0.1 s / 2.9 s; with min=max=4s from the start and with min=max=60s from 6 s after the start), which run with every combination of draws {0, middle, maximum}"}
 	if r.Replay != nil {
 		var c c06Case
 		if err := json.Unmarshal(r.Replay, &c); err != nil {
@@ -478,6 +478,68 @@ func TestVerifC06(t *testing.T) {
 			r.Count("traces_validated_against_impl", st.Executions)
 			return !r.OverBudget()
 		})
+		// ... and histories of exactly 3 solicitations 0.1 s / 2.9 s apart.
+		g4 := []time.Duration{100 * time.Millisecond, 2900 * time.Millisecond}
+		enum.Sequences(2*len(g4), 3, func(seq []int) bool {
+			idx++
+			if !r.Mine(idx) || len(seq) != 3 {
+				return true
+			}
+			c := c06Case{}
+			for _, s := range seq {
+				c.Events = append(c.Events, c06Event{Multicast: s%2 == 0, Gap: g4[s/2]})
+			}
+			var a *advWorld
+			sc := c06Scenario(c, &a)
+			sc.Check = func(x *vsched.Exec) [][2]string { return c06Check(c, x, a) }
+			st := vsched.Explore(t, sc, vsched.Options{Bound: 0, NoEnvCost: true, OnExec: func(x *vsched.Exec, viol [][2]string) {
+				ndraws++
+				r.Case(c.String()+fmt.Sprint(x.Choices()), true)
+				for _, v := range viol {
+					cc := c
+					cc.Choices = x.Choices()
+					r.Violation(v[0], "history "+c.String()+" draws "+fmt.Sprint(x.Choices())+": "+v[1], cc)
+				}
+			}})
+			r.Count("states", st.States)
+			r.Count("transitions", st.Transitions)
+			r.Count("traces_validated_against_impl", st.Executions)
+			return !r.OverBudget()
+		})
+		// ... and, with long quiet periods between the periodic RAs (min=max=60s), histories
+		// of 3 solicitations that begin 6 s after the start, when a multicast RA is due at
+		// once (the last one is more than 3 s old) and a unicast answer may still be waiting.
+		for kinds := 0; kinds < 8; kinds++ {
+			for gaps := 0; gaps < 4; gaps++ {
+				idx++
+				if !r.Mine(idx) {
+					continue
+				}
+				c := c06Case{Interval: 60 * time.Second}
+				for i := 0; i < 3; i++ {
+					g := 6 * time.Second
+					if i > 0 {
+						g = g4[(gaps>>(i-1))&1]
+					}
+					c.Events = append(c.Events, c06Event{Multicast: kinds&(1<<i) != 0, Gap: g})
+				}
+				var a *advWorld
+				sc := c06Scenario(c, &a)
+				sc.Check = func(x *vsched.Exec) [][2]string { return c06Check(c, x, a) }
+				st := vsched.Explore(t, sc, vsched.Options{Bound: 0, NoEnvCost: true, OnExec: func(x *vsched.Exec, viol [][2]string) {
+					ndraws++
+					r.Case(c.String()+fmt.Sprint(x.Choices()), true)
+					for _, v := range viol {
+						cc := c
+						cc.Choices = x.Choices()
+						r.Violation(v[0], "history "+c.String()+" draws "+fmt.Sprint(x.Choices())+": "+v[1], cc)
+					}
+				}})
+				r.Count("states", st.States)
+				r.Count("transitions", st.Transitions)
+				r.Count("traces_validated_against_impl", st.Executions)
+			}
+		}
 		r.Count("executions_over_all_random_delay_draws", ndraws)
 	}
 
